@@ -55,7 +55,10 @@ def docs():
         paths={"/zip": {"put": {"operationId": "putZip", "requestBody": {"required": True, "content": {"application/zip": {"schema": {"type": "string", "format": "binary"}}}},
                                 "responses": {"200": {"description": "d", "content": {"text/json": {"schema": ref("Blob")}}}, "202": {"description": "d", "content": {"application/x-log": {"schema": {"type": "string"}}}}}}},
                "/j": {"post": {"operationId": "postJ", "requestBody": {"required": True, "content": {"application/x-thing": {"schema": ref("Log")}}},
-                               "responses": {"200": {"description": "d", "content": {"application/x-thing": {"schema": ref("Log")}}}}}}})
+                               "responses": {"200": {"description": "d", "content": {"application/x-thing": {"schema": ref("Log")}}}}}},
+               # override targets that are encoded as forms / multipart parts
+               "/f": {"post": {"operationId": "postF", "requestBody": {"required": True, "content": {"application/x-formy": {"schema": ref("Log")}}}, "responses": {"204": {"description": "n"}}}},
+               "/mp": {"post": {"operationId": "postMp", "requestBody": {"required": True, "content": {"multipart/mixed": {"schema": ref("Blob")}}}, "responses": {"204": {"description": "n"}}}}})
     # override keys that are not a plain lower-case type/subtype: a key with parameters, upper-case letters, a malformed key
     D["media-odd"] = gen.base_doc(
         {"Blob": obj(name={"type": "string"}), "Log": obj(line={"type": "string"})},
@@ -491,7 +494,8 @@ def run_case(p):
         if n_base != len(tagged):
             V("first-tag-only", "api", f"{n_base} endpoint modules with the option off for {len(tagged)} operations")
     elif opt == "content_type_overrides":
-        ov = {"application/zip": "application/octet-stream", "text/json": "application/json", "application/x-log": "text/plain", "application/x-thing": "application/json"}
+        ov = {"application/zip": "application/octet-stream", "text/json": "application/json", "application/x-log": "text/plain", "application/x-thing": "application/json",
+              "application/x-formy": "application/x-www-form-urlencoded", "multipart/mixed": "multipart/form-data"}
         if p["doc"] == "media-odd":
             ov = {"application/vnd.acme.report; version=2": "application/json", "Application/X-UPPER": "application/json", "openapi/python/client": "application/json"}
         new = _gen(doc, ctx, content_type_overrides=ov)
@@ -521,7 +525,13 @@ def run_case(p):
             ta = a.decode()
             for k, v in ov.items():
                 ta = ta.replace(f'"{k}"', f'"{v}"')
-            if ta != b.decode():
+            # a body declared as multipart/form-data itself lets httpx write the header (it carries the
+            # boundary); an override that only maps onto it has to state the declared type, one more line
+            tb = b.decode()
+            if ta != tb:
+                ta = "\n".join(x for x in ta.split("\n") if x.strip() != 'headers["Content-Type"] = "multipart/form-data"')
+                tb = "\n".join(x for x in tb.split("\n") if x.strip() != 'headers["Content-Type"] = "multipart/form-data"')
+            if ta != tb:
                 V("override-changes-code", role(f), f"{f}: differs from the target-type twin beyond the Content-Type literal: " + _first_line_diff(b.decode(), ta))
         # sent as itself
         nb = behaviour(new)
